@@ -7,7 +7,7 @@ CONSTANTS
   XferAmts = {1, 3}
   UseAmts = {1, 2}
   StepOps = {"get", "put", "del", "scan", "call", "xfer", "emit", "use", "fail", "fail500"}
-  TamperKinds = {"none", "read_ver", "read_drop", "read_add", "write_drop", "write_add", "write_val", "write_dup", "write_swap", "write_app", "write_bucket", "write_rep", "read_dup", "limit_below", "limit_above", "fee_below", "fee_above", "amt_req", "amt_out", "ev_alter", "ev_drop", "ctr_alter", "redirect", "cout_drop", "cout_less", "cout_freeze", "cin_omit", "cin_steal", "cin_extra", "req_drop"}
+  TamperKinds = {"none", "read_ver", "read_drop", "read_add", "write_drop", "write_add", "write_val", "write_dup", "write_swap", "write_app", "write_bucket", "write_rep", "read_dup", "limit_below", "limit_above", "fee_below", "fee_above", "amt_req", "amt_out", "ev_alter", "ev_drop", "ctr_alter", "redirect", "cout_drop", "cout_less", "cout_freeze", "cin_omit", "cin_steal", "cin_extra", "req_drop", "req2_paid", "req2_unpaid"}
   Amts = {0, 1}
   KeepHist = FALSE
   KF_ContractUtxoUnbound = FALSE
